@@ -13,7 +13,7 @@
 (* the antecedent of the selected property really held (non-vacuity).      *)
 (* <<"DONE", n>> is printed when the last event has been consumed.         *)
 (***************************************************************************)
-EXTENDS Squitterator, Country, Render, Json, IOUtils, TLC, FiniteSets
+EXTENDS Squitterator, Country, Render, Dlog, Json, IOUtils, TLC, FiniteSets
 
 Rec == ndJsonDeserialize(IOEnv.TRACE)
 Prop == IOEnv.PROP
@@ -445,6 +445,21 @@ CliStep(ev) ==
       /\ Chk("DRIFT", "refresh.per.frame", (observable /\ ev.code = 0 /\ ~ambiguous) => ev.nsnaps = Len(cIdx), ev, ev.profile)
 
 
+(***************************** -D downlink log ****************************)
+\* ev: [lines, args.f, log : logged lines as code points, code]
+DlogStep(ev) ==
+  LET n    == Len(ev.lines)
+      lis  == [k \in 1..n |-> LineInfo(ev.lines[k])]
+      \* frames that reach the decoder: gate, non-zero address (both readings for formats outside the nine), filter
+      idx  == SelectSeq([k \in 1..n |-> k], LAMBDA k : lis[k].isf /\ PassesFilter(lis[k].df, ev.args.f)
+                          /\ (IF lis[k].df \in NineDF THEN lis[k].a # 0 ELSE lis[k].a # 0 /\ Field(lis[k].f, 9, 32) # 0))
+      ambiguous == \E k \in 1..n : lis[k].isf /\ lis[k].df \notin NineDF /\ ((lis[k].a = 0) # (Field(lis[k].f, 9, 32) = 0))
+      pats == Flatten([j \in 1..Len(idx) |-> DlogRecord(lis[idx[j]].f, lis[idx[j]].a)], <<>>)
+      fm   == FirstMismatch(ev.log, pats)
+  IN  /\ Chk("DRIFT", "dlog.records", (ev.code = 0 /\ ~ambiguous) => fm = 0, ev,
+             IF fm = -1 THEN "count" ELSE IF fm > 0 THEN "line." \o ToString(fm) ELSE "ok")
+      /\ Mark("DRIFT", Len(idx) > 0 /\ ev.code = 0 /\ ~ambiguous, ev)
+
 (***************************** C17 country *********************************)
 \* ev.runs: run-length encoding of row.reg over all 2^24 addresses
 CountryStep(ev) ==
@@ -621,6 +636,7 @@ Step(ev) ==
   ELSE IF ev.e = "print" THEN (IF PrintStep(ev) THEN st ELSE st)
   ELSE IF ev.e = "country" THEN (IF CountryStep(ev) THEN st ELSE st)
   ELSE IF ev.e = "cli" THEN (IF CliStep(ev) THEN st ELSE st)
+  ELSE IF ev.e = "dlog" THEN (IF DlogStep(ev) THEN st ELSE st)
   ELSE IF ev.e = "icaosweep" THEN (IF IcaoSweepStep(ev) THEN st ELSE st)
   ELSE IF ev.e = "burst" THEN (IF BurstStep(ev) THEN st ELSE st)
   ELSE st
